@@ -22,7 +22,7 @@ def run(chk):
     rng = chk.rng.fork("c02")
     progs, icases, mcases = [], [], []
     for i in range(n):
-        p = asm_gen.gen_chain_prog(rng) if rng.chance(0.1) else asm_gen.gen_shift_prog(rng) if rng.chance(0.15) else asm_gen.gen_prog(rng, size_static=rng.chance(0.25), collide=rng.chance(0.35), boundary=rng.chance(0.2))
+        p = asm_gen.gen_frozen_prog(rng) if rng.chance(0.03) else asm_gen.gen_scope_prog(rng) if rng.chance(0.03) else asm_gen.gen_chain_prog(rng) if rng.chance(0.1) else asm_gen.gen_shift_prog(rng) if rng.chance(0.15) else asm_gen.gen_prog(rng, size_static=rng.chance(0.25), collide=rng.chance(0.35), boundary=rng.chance(0.2))
         b = rng.weighted([(1, 5), (2, 10), (3, 15), (4, 15), (5, 10), (10, 25), (11, 5), (30, 15)]) if rng.chance(0.8) else rng.range(1, 30)
         s, m = rng.chance(0.5), rng.chance(0.5)
         progs.append((p, b, s, m))
@@ -31,6 +31,17 @@ def run(chk):
     ia = R.impl(icases, "debug")
     ir = R.impl(icases, "release")
     ma = R.model_run(mcases)
+    # F70 (KNOWN_FINDINGS, property C08): with the static-value optimisation a program made of statically known
+    # items only is declared resolved in pass 1; the model (static optimisation off, as the theorems) reaches the same
+    # state and sees it unchanged in pass 2.  Such answers are compared with the model run at budget max(b, 2).
+    one_pass = [i for i, (c, a) in enumerate(zip(icases, ia)) if c[2] and a.startswith("OK\t") and a.split("\t")[2] == "1"]
+    if one_pass:
+        m2 = R.model_run([(progs[i][0], max(progs[i][1], 2), progs[i][3]) for i in one_pass])
+        for i, mo in zip(one_pass, m2):
+            f = mo.split("\t")
+            if f[0] == "OK" and f[2] == "2":
+                f[2] = "1"
+                ma[i] = "\t".join(f)
     cert_cases, cert_idx = [], []
     dist = {"ok": 0, "err": 0, "cascading_isa": 0}
     ndis = 0
